@@ -20,9 +20,9 @@ Proof.
   - reflexivity.
   - unfold MaxInt. lia.
   - unfold live_pairs. simpl. repeat constructor; eexists; simpl; repeat split; try reflexivity; unfold MaxInt32; lia.
-  - intros i q Hi Hq. do 4 (destruct i as [|i]; [try (simpl in Hq; discriminate)|]); try lia.
-    + unfold cell_at, has in Hq. simpl in Hq. rewrite orb_false_r in Hq. apply Nat.eqb_eq in Hq. subst. eexists. split; reflexivity.
-    + unfold cell_at, has in Hq. simpl in Hq. rewrite orb_false_r in Hq. apply Nat.eqb_eq in Hq. subst. eexists. split; reflexivity.
+  - intros i q Hi Hq.
+    destruct i as [|[|[|[|i]]]]; simpl in Hi; try lia; unfold cell_at, has in Hq; simpl in Hq; try discriminate;
+      rewrite orb_false_r in Hq; apply Nat.eqb_eq in Hq; subst; eexists; split; reflexivity.
   - lia.
   - intros q r Hr. destruct q; simpl in Hr; [injection Hr as <-; simpl; lia|discriminate].
 Qed.
@@ -35,7 +35,7 @@ Proof.
                             [Some (mkDatum 10 0); Some (mkDatum 11 1); Some (mkDatum 10 0); Some (mkDatum 11 1)]
                             [(0%nat, (0, 1))] None 1 1 true true)) by (vm_compute; reflexivity).
   pose proof (inv_data _ (H _ _ swap_witness_inv E)) as Hd. unfold live_pairs in Hd. simpl in Hd.
-  inversion Hd as [|? ? Hg _]. destruct Hg as [x [E1 [E2 _]]]. simpl in *. injection E1 as <-. simpl in E2. discriminate.
+  inversion Hd as [|? ? Hg _]. destruct Hg as [y [E1 [E2 _]]]. simpl in *. injection E1 as <-. simpl in E2. discriminate.
 Qed.
 
 Theorem defrag_as_found_panics : exists c batch, Inv c /\ valid_batch batch /\ snd (start_forward false c batch) = OPanic.
@@ -103,8 +103,9 @@ Proof.
   - reflexivity.
   - unfold MaxInt. lia.
   - unfold live_pairs. simpl. repeat constructor; eexists; simpl; repeat split; try reflexivity; unfold MaxInt32; lia.
-  - intros i q Hi Hq. do 2 (destruct i as [|i]; [try (simpl in Hq; discriminate)|]); try lia.
-    unfold cell_at, has in Hq. simpl in Hq. rewrite orb_false_r in Hq. apply Nat.eqb_eq in Hq. subst. eexists. split; reflexivity.
+  - intros i q Hi Hq.
+    destruct i as [|[|i]]; simpl in Hi; try lia; unfold cell_at, has in Hq; simpl in Hq; try discriminate;
+      rewrite orb_false_r in Hq; apply Nat.eqb_eq in Hq; subst; eexists; split; reflexivity.
   - lia.
   - intros q r Hr. destruct q; simpl in Hr; [injection Hr as <-; simpl; lia|discriminate].
 Qed.
